@@ -5,6 +5,7 @@ import sys
 import time
 
 from common import *
+import known as known_classes
 
 
 def load_corpus(prop):
@@ -27,6 +28,9 @@ def classify_known(prop, case, known):
             continue
         pat = k.get("case_regex")
         if pat and re.search(pat, case):
+            return k
+        cls = k.get("class")
+        if cls and cls in known_classes.CLASSES and known_classes.CLASSES[cls](case):
             return k
     return None
 
